@@ -59,6 +59,19 @@ def problems():
         if MISSING.__eq__(other) is not False or is_missing(other) or not not_missing(other) \
                 or when_missing(other, "dflt") is not other:
             out.append(f"look-alike {other!r} is treated as missing")
+    # state instances holding MISSING: an attribute declared Missing holds the one MISSING object or nothing else
+    from unittest import mock
+    for other in (None, False, 0, "", (), AlwaysEq(), mock.ANY, object()):
+        for kw in ("b", "a"):
+            if kw == "a" and isinstance(other, int):
+                continue                               # a: int | Missing accepts ints (and bools)
+            try:
+                inst = Holder(**{kw: other})
+            except Exception:  # noqa
+                continue
+            if True:
+                out.append(f"Holder({kw}={other!r}) was accepted: the attribute now holds {getattr(inst, kw)!r}, "
+                           f"is_missing says {is_missing(getattr(inst, kw))}")
     if not (MISSING == MISSING and is_missing(MISSING) and not not_missing(MISSING) and when_missing(MISSING, 5) == 5):
         out.append("predicates disagree on MISSING itself")
     for act in (lambda: MISSING.x, lambda: setattr(MISSING, "x", 1), lambda: delattr(MISSING, "x")):
